@@ -26,9 +26,9 @@ SPECS = [
  ("C09", "extract-without-removing", S+"utils/sigchld.py", "        return self._returncodes.pop()", "        return self._returncodes[-1]"),
  ("C09", "handler-stops-after-first", S+"utils/sigchld.py", "                SigchldHelper.instance()._add_returncode(pid, returncode)", "                SigchldHelper.instance()._add_returncode(pid, returncode)\n                break"),
  ("C09", "unknown-pid-is-completion", S+"execution/executor.py", "            if pid in self._processes:\n                break", "            if pid in self._processes:\n                break\n            if len(self._processes) == 1:\n                pid = next(iter(self._processes))\n                break"),
- ("C10", "tee-stops-on-short-read", S+"utils/tee.py", "                stream.flush()\n            stream.flush()", "                stream.flush()\n                if len(data) < 4096:\n                    break\n            stream.flush()"),
- ("C10", "log-text-mode-replace", S+"utils/tee.py", "        with open(file_name, \"wb\") as file:", "        with open(file_name, \"w\", errors=\"replace\") as file:"),
- ("C10", "json-written-when-empty", S+"execution/ops/run_task_executable.py", "            if not self._args.empty():\n                self._args", "            if True:\n                self._args"),
+ ("C10", "tee-stops-on-short-read", S+"utils/tee.py", "                if file is not None:\n                    try:\n                        file.write(data)", "                if len(data) < 4096 and file is not None:\n                    file.write(data)\n                    break\n                if file is not None:\n                    try:\n                        file.write(data)"),
+ ("C10", "log-text-mode-replace", [S+"utils/tee.py", S+"utils/tee.py"], ["            file = open(file_name, \"wb\")", "                        file.write(data)"], ["            file = open(file_name, \"w\", errors=\"replace\")", "                        file.write(data.decode(\"utf-8\", errors=\"replace\"))"]),
+ ("C10", "json-written-when-empty", S+"execution/ops/run_task_executable.py", "                if not self._args.empty():\n                    self._args", "                if True:\n                    self._args"),
  ("C11", "latest-per-task-ascending", S+"execution/version_index_queries.py", "  WHERE\n    task_identifier = ?\n  ORDER BY timestamp DESC\n  LIMIT 1", "  WHERE\n    task_identifier = ?\n  ORDER BY timestamp ASC\n  LIMIT 1"),
  ("C11", "latest-join-on-timestamp-only", S+"execution/version_index_queries.py", "    c.task_identifier = l.task_identifier\n    AND c.timestamp = l.timestamp", "    c.timestamp = l.timestamp"),
  ("C12", "insert-or-replace", S+"execution/version_index_queries.py", "  INSERT INTO version_index (\n    task_identifier,", "  INSERT OR REPLACE INTO version_index (\n    task_identifier,"),
@@ -36,7 +36,7 @@ SPECS = [
  ("C12", "commit-before-copy", S+"cli/restore.py", "        # Copy over all archived task outputs\n", "        ctx.version_index.commit_changes()\n        # Copy over all archived task outputs\n"),
  ("C13", "descend-into-task-dirs", S+"cli/gc.py", "                if _REGULAR_TASK_REGEX.match(inner.name) is None:\n                    # If this directory is not a Conductor task directory, we\n                    # should \"explore\" it.\n                    stack.append(inner)", "                stack.append(inner)"),
  ("C13", "dry-run-deletes", S+"cli/gc.py", "                print(\"Would delete\", str(_relative_to_if_possible(exp_path, cwd)))", "                print(\"Would delete\", str(_relative_to_if_possible(exp_path, cwd)))\n                shutil.rmtree(exp_path, ignore_errors=True)"),
- ("C13", "verbose-only-deletion", S+"cli/gc.py", "                shutil.rmtree(exp_path, ignore_errors=True)\n\n\ndef", "                    shutil.rmtree(exp_path, ignore_errors=True)\n\n\ndef"),
+ ("C13", "verbose-only-deletion", S+"cli/gc.py", "                _remove_output_dir(exp_path)\n\n\ndef", "                    _remove_output_dir(exp_path)\n\n\ndef"),
  ("C14", "post-visit-marker-dropped", S+"parsing/task_index.py", "                    curr_path.remove(identifier)\n                    visited_identifiers.add(identifier)", "                    visited_identifiers.add(identifier)"),
  ("C14", "dup-detection-on-raw-strings", S+"parsing/task_index.py", "                    if dep_identifier in task_deps_set:", "                    if dep in task_deps_set:"),
  ("C15", "include-extension-in", S+"parsing/task_loader.py", "        if not candidate_path.endswith(COND_INCLUDE_EXTENSION):", "        if COND_INCLUDE_EXTENSION not in candidate_path:"),
@@ -51,11 +51,11 @@ SPECS = [
  ("C20", "name-regex-end-anchor-dropped", S+"task_identifier.py", "_NAME_REGEX = re.compile(r\"^{}\\Z\".format(IDENTIFIER_GROUP))", "_NAME_REGEX = re.compile(r\"^{}\".format(IDENTIFIER_GROUP))"),
  ("C20", "dot-admitted", S+"task_identifier.py", "IDENTIFIER_GROUP = \"[a-zA-Z0-9_-]+\"", "IDENTIFIER_GROUP = \"[a-zA-Z0-9_.-]+\""),
  ("C18", "entry-named-after-identifier-path", S+"execution/ops/combine_outputs.py", "            copy_into = self._output_path / dep_id.name", "            copy_into = self._output_path / str(dep_id).replace(\"/\", \"_\").replace(\":\", \"_\")"),
- ("C18", "non-link-silently-replaced", S+"execution/ops/combine_outputs.py", "                else:\n                    # Unexpected - it should be a symlink.\n                    raise CombineOutputFileConflict(output_file=str(copy_into))", "                elif copy_into.is_file():\n                    copy_into.unlink()\n                else:\n                    raise CombineOutputFileConflict(output_file=str(copy_into))"),
+ ("C18", "non-link-silently-replaced", S+"execution/ops/combine_outputs.py", "            elif copy_into.exists():\n                # Unexpected - it should be a symlink.\n                raise CombineOutputFileConflict(output_file=str(copy_into))", "            elif copy_into.is_file():\n                copy_into.unlink()\n            elif copy_into.exists():\n                raise CombineOutputFileConflict(output_file=str(copy_into))"),
  ("C06", "row-inserted-at-planning-instead-of-finish",
   [S+"task_types/run.py", S+"execution/ops/run_task_executable.py"],
   ["    def create_new_version(self, ctx: \"c.Context\") -> Version:\n        self._create_new_version(ctx)\n        assert self._most_relevant_version is not None",
-   "            ctx.version_index.insert_output_version(\n                self._identifier, self._version_to_record\n            )\n"],
+   "                ctx.version_index.insert_output_version(\n                    self._identifier, self._version_to_record\n                )\n"],
   ["    def create_new_version(self, ctx: \"c.Context\") -> Version:\n        self._create_new_version(ctx)\n        assert self._most_relevant_version is not None\n        ctx.version_index.insert_output_version(self._identifier, self._most_relevant_version)",
    ""]),
 ]
